@@ -683,13 +683,30 @@ fn test_components() {
     assert_eq!(set.get_components().len(), 2);
 }
 
-/// 散列化「无序不重复词项容器」
-/// * ⚠️潜在假设：集合相同⇒遍历顺序相同⇒散列化顺序相同⇒散列化结果相同
-fn hash_term_set<H: std::hash::Hasher>(set: &TermSetType, state: &mut H) {
-    // 逐个元素散列化
-    for term in set {
-        term.hash(state)
+/// 顺序无关地散列化一组词项
+/// * 🚩每个词项先用固定的内部散列器单独散列化，再以「可交换」的方式（回绕加法）合并
+///   * 📌相等的集合⇒相同的元素多重集⇒相同的合并结果，与遍历顺序（插入顺序、散列种子）无关
+fn hash_terms_unordered<'a, H: std::hash::Hasher>(
+    terms: impl Iterator<Item = &'a Term>,
+    state: &mut H,
+) {
+    use std::hash::Hasher;
+    let mut len: usize = 0;
+    let mut acc: u64 = 0;
+    for term in terms {
+        let mut hasher = std::collections::hash_map::DefaultHasher::new();
+        term.hash(&mut hasher);
+        acc = acc.wrapping_add(hasher.finish());
+        len += 1;
     }
+    state.write_usize(len);
+    state.write_u64(acc);
+}
+
+/// 散列化「无序不重复词项容器」
+/// * 🚩顺序无关：相等的集合，遍历顺序不一定相同（每个[`HashSet`]实例有自己的随机种子）
+fn hash_term_set<H: std::hash::Hasher>(set: &TermSetType, state: &mut H) {
+    hash_terms_unordered(set.iter(), state)
 }
 
 /// 实现/散列化逻辑
@@ -748,16 +765,17 @@ impl Hash for Term {
             ConjunctionParallel(set) => hash_term_set(set, state),
             // 陈述
             Inheritance(t1, t2)
-            | Similarity(t1, t2)
             | Implication(t1, t2)
-            | Equivalence(t1, t2)
             | ImplicationPredictive(t1, t2)
             | ImplicationConcurrent(t1, t2)
             | ImplicationRetrospective(t1, t2)
-            | EquivalencePredictive(t1, t2)
-            | EquivalenceConcurrent(t1, t2) => {
+            | EquivalencePredictive(t1, t2) => {
                 t1.hash(state);
                 t2.hash(state);
+            }
+            // 对称陈述：判等时主谓词可交换，散列化亦须与主谓词顺序无关
+            Similarity(t1, t2) | Equivalence(t1, t2) | EquivalenceConcurrent(t1, t2) => {
+                hash_terms_unordered([t1.as_ref(), t2.as_ref()].into_iter(), state)
             }
         }
     }
